@@ -22,16 +22,22 @@ def run_c14(tier):
     ck = vlib.Check('C14', tier, 'model_checking')
     seed = vlib.seed()
     cases = []
-    plans = [('free', 3 if tier == 'quick' else 4, 2, 0), ('offsets', 4, 2, 321 if tier == 'thorough' else 200)]
+    plans = [('free', 3 if tier == 'quick' else 4, 2, 0), ('offsets', 4, 2, 321 if tier == 'thorough' else 200),
+             ('far', 3 if tier == 'quick' else 4, 2, 0)]
     if tier == 'thorough':
         plans.append(('free', 3, 3, 0))
     for pattern, ops, gens, maxpos in plans:
-        res = vlib.tlc(SPEC, 'ChaChaPRG', vlib.cfg({'Sizes': SIZES, 'MaxOps': ops, 'MaxGens': gens, 'Pattern': pattern, 'MaxPos': maxpos},
+        res = vlib.tlc(SPEC, 'ChaChaPRG', vlib.cfg({'Sizes': SIZES, 'MaxOps': ops, 'MaxGens': gens, 'Pattern': pattern, 'MaxPos': maxpos, 'TruncBug': False},
                        invariants=['SameStream', 'RestoreResumes', 'Emit']), name='prg', timeout=2400)
         if not res.ok:
             raise vlib.Undecided('ChaChaPRG %s: %s %s' % (pattern, res.violated, res.error))
         ck.add_states(res, 'pattern=%s ops=%d generators<=%d maxpos=%d' % (pattern, ops, gens, maxpos))
         cases += tlc_cases(res.out)
+    neg = vlib.tlc(SPEC, 'ChaChaPRG', vlib.cfg({'Sizes': {1}, 'MaxOps': 2, 'MaxGens': 2, 'Pattern': 'far', 'MaxPos': 0, 'TruncBug': True},
+                   invariants=['SameStream']), name='prgneg')
+    if 'SameStream' not in neg.violated:
+        raise vlib.Undecided('negative control (32-bit truncation in Restore) not detected')
+    ck.cov['negative_controls'] = 1
     if len(cases) < 500:
         raise vlib.Undecided('ChaChaPRG enumeration produced %d cases' % len(cases))
     vh = vlib.build_vh()
